@@ -9,7 +9,9 @@ import (
 	jsonv2 "github.com/go-json-experiment/json"
 	"github.com/go-json-experiment/json/jsontext"
 
+	"verif/internal/enum"
 	"verif/internal/evid"
+	"verif/internal/typeuniv"
 )
 
 // ---- sequences of MarshalWrite / MarshalEncode calls over different writer kinds that share one sink ----
@@ -187,4 +189,71 @@ func resets(r *evid.Run) {
 	r.Evaluations.Add(n)
 	r.Nontrivial.Add(n)
 	r.Bound("Encoder.Reset: after every token prefix of a 3-value document (%d tokens; complete and abandoned values) x write fault at call 0..3 of the old writer x old/new writer kind {plain, bytes.Buffer}: the new writer receives exactly the value written after the Reset", ntok)
+}
+
+// ---- small values of every type: the bytes do not depend on the entry point ----
+
+func smallValues(r *evid.Run) {
+	ts := typeuniv.Universe(typeuniv.Cfg{Depth: 1, NoInvalid: true})
+	optSetsSV := [][]jsonv2.Options{{jsonv2.Deterministic(true)}, {jsonv2.Deterministic(true), jsonv2.StringifyNumbers(true)}, {jsonv2.Deterministic(true), jsontext.Multiline(true)}}
+	enum.Parallel(r, len(ts), func(w *enum.Worker) func(int) {
+		var cur Case
+		w.Describe = func() any { return cur }
+		var n int64
+		w.Done = func() { r.Evaluations.Add(n * 4); r.Nontrivial.Add(n) }
+		return func(u int) {
+			t := ts[u]
+			for vi, rv := range typeuniv.Domain(t, true) {
+				v := rv.Interface()
+				for oi, opts := range optSetsSV {
+					n++
+					cur = Case{Part: "small-value", Value: vi, OptSet: fmt.Sprint(oi), Path: typeuniv.Describe(t)}
+					msg := func() (msg string) {
+						defer func() {
+							if p := recover(); p != nil {
+								msg = fmt.Sprintf("library panic: %v", p)
+							}
+						}()
+						want, err := jsonv2.Marshal(v, opts...)
+						if err != nil {
+							return ""
+						}
+						var bb bytes.Buffer
+						if err := jsonv2.MarshalWrite(&bb, v, opts...); err != nil || !bytes.Equal(bb.Bytes(), want) {
+							return fmt.Sprintf("MarshalWrite(bytes.Buffer) delivers %q (err=%v), Marshal returns %q", trunc(bb.Bytes()), err, trunc(want))
+						}
+						pw := &plainWriter{}
+						if err := jsonv2.MarshalWrite(pw, v, opts...); err != nil || !bytes.Equal(pw.b, want) {
+							return fmt.Sprintf("MarshalWrite(plain writer) delivers %q (err=%v), Marshal returns %q", trunc(pw.b), err, trunc(want))
+						}
+						// two values in a row on streaming Encoders: each followed by exactly one newline
+						for _, mk := range []func() (*jsontext.Encoder, func() []byte){
+							func() (*jsontext.Encoder, func() []byte) {
+								w := &plainWriter{}
+								return jsontext.NewEncoder(w, opts...), func() []byte { return w.b }
+							},
+							func() (*jsontext.Encoder, func() []byte) {
+								var b bytes.Buffer
+								return jsontext.NewEncoder(&b, opts...), b.Bytes
+							},
+						} {
+							enc, out := mk()
+							e1 := jsonv2.MarshalEncode(enc, v)
+							e2 := jsonv2.MarshalEncode(enc, v)
+							exp := string(want) + "\n" + string(want) + "\n"
+							if e1 != nil || e2 != nil || string(out()) != exp {
+								return fmt.Sprintf("two MarshalEncode calls on a streaming Encoder deliver %q (errors %v, %v), want %q", trunc(out()), e1, e2, trunc([]byte(exp)))
+							}
+						}
+						return ""
+					}()
+					if msg != "" {
+						r.Violation(fmt.Sprintf("c07|small-value|%s|%d|%d", typeuniv.Describe(t), vi, oi), fmt.Sprintf("%s value #%d: %s", typeuniv.Describe(t), vi, msg), cur, nil)
+					}
+				}
+			}
+			w.Beat()
+		}
+	})
+	r.Bound("small values: %d generated types x value domains x 3 option sets x {MarshalWrite to bytes.Buffer / plain writer, two MarshalEncode calls on a streaming Encoder over a plain writer / bytes.Buffer}: bytes equal Marshal's", len(ts))
 }
